@@ -26,3 +26,16 @@ func Lock(l interface{}, write bool, site string) {
 		h(l, write, site)
 	}
 }
+
+// Choose, when set, lets the simulator supply a value in [0, n) for a random
+// choice the code would otherwise draw from an unseeded source. ok=false keeps
+// the code's own draw.
+var Choose func(site string, n uint32) (v uint32, ok bool)
+
+// Pick calls Choose if it is set.
+func Pick(site string, n uint32) (uint32, bool) {
+	if h := Choose; h != nil {
+		return h(site, n)
+	}
+	return 0, false
+}
